@@ -225,7 +225,7 @@ CONTRACTS['LogicalFile._check_completeness'] = dict(
 # ---------------------------------------------------------------------------------------------- no-format data order (C16)
 CONTRACTS['LogicalFile.add_no_format_frame_data'] = dict(
     props=['C16', 'C09'], self_fields={'_no_format_frame_data': 'seqlist[ref]'},
-    params={'no_format_object': {'cls': 'NoFormatItem', 'fields': {'name': 'str'}}, 'data': 'oneof[bytes,str]'},
+    params={'no_format_object': {'cls': 'NoFormatItem', 'fields': {'name': 'str'}}, 'data': 'oneof[bytes,bytearray,str]'},
     returns={'cls': 'NoFormatFrameData', 'fields': {}},
     ensures=[('records-keep-the-order-in-which-they-were-added', 'self._no_format_frame_data == old(self._no_format_frame_data) + [result]'),
              ('payload-and-object-kept-as-given', 'result.data == data and result.no_format_object is no_format_object')])
